@@ -243,6 +243,23 @@ CHECKS = {
        "a program the input started is not a hang of the shell; strings that glob the whole file system from / skip the planner "
        "stage; ranges of more than 200 000 elements are not generated.",
   technique="TLA+ protocol spec + TLC enumeration of the input space; exhaustive in-process stage sweep, process / pty fuzz, recorded answers validated by TLC"),
+ "C20": dict(
+  category="model_checking",
+  text="Candidates and the inserted text are specified in spec/Complete.tla in two models: 'pinned' (completers/path.rs as written: "
+       "tools::escape_path unquoted, tools::wrap_sep_string inside quotes) and 'inverse' (the inverse of the reference reader). TLC "
+       "checks RoundTrip - the completed line is read back as the entry's name with no character left subject to a later expansion - "
+       "for the inverse escaping on every name up to length 2 (thorough 3) over a 22-symbol special-character alphabet x {unquoted, "
+       "open ', open \"}, and lists per (name, context) whether the pinned escaping satisfies it (it does not: negative control). "
+       "Every (name, context) is a replay case as a file, a directory, one of several candidates and after cd: a directory is "
+       "populated, the real escaped_word_start + complete_path produce the candidates and the insertion, the harness splices it the "
+       "way lineread 0.7.2 does and the real CommandLine::from_line plans the completed line (argv must be the entry's name, "
+       "candidates the entries with the prefix). Every cluster of in-process mismatches and a sample of matches is typed into a live "
+       "pseudo-terminal session (prefix, TAB, Enter); the argv the helper program received decides.",
+  design_ref="DESIGN.md 6 (C20)",
+  note="Only pty-level failures are violations. The pinned tree has genuine defects here (11 known findings in known_findings.json, "
+       "most sharing their root cause with the C01 backslash findings or with the reader's handling of \\$ \\` \\\\ inside double quotes); "
+       "the editor-splice emulation is trusted for selecting cases only and is cross-checked by the pty layer.",
+  technique="TLA+ model of completion escaping vs the reference reader checked by TLC; TLC-enumerated names replayed through the real completer + planner in-process and typed at a pty"),
  "C06": dict(
   category="model_checking",
   text="TLC explores every interleaving of child status changes (with Linux's report coalescing), foreground-wait iterations, "
